@@ -352,6 +352,11 @@ def path_instances_of_class(
         if ignore_children:
             return results
 
+    if isinstance(obj, type):
+        # a class held as an attribute (e.g. Model.cls) is not part of the model: do not walk its
+        # __dict__ (another thread may grow it, e.g. pickle caching __slotnames__ on the class)
+        return results
+
     if isinstance(obj, list):
         for i, item in enumerate(obj):
             for path, instance in path_instances_of_class(
